@@ -8,6 +8,7 @@ CONSTANTS
   Extra <- FourProc
   GFirst = TRUE
   SelDet = TRUE
+  RecSteps = FALSE
   LogOn = TRUE
   POR = FALSE
 CONSTRAINT DumpSim
